@@ -441,7 +441,13 @@ func newPlan(s *Selection, ts TierSel, srcs []*Src, families bool) *plan {
 // SpecialLiterals: string contents the lexer accepts (raw text between two
 // double quotes) that need care when printed: space, parentheses, semicolon,
 // backslash, non-ASCII, line break, tab.
-var SpecialLiterals = []string{"a b", "a(b", "a)b", "(", "a;b", `a\b`, `\`, "é", "日本", "a\nb", "a\tb", "", " ", "a'b", "#", "1", "true"}
+var SpecialLiterals = []string{"a b", "a(b", "a)b", "(", "a;b", `a\b`, `\`, "é", "日本", "a\nb", "a\tb", "", " ", "a'b", "#", "1", "true",
+	"100%", "%d %s %v", "%", "a%!b(MISSING)", "x\ny\nz", "\n", "a\n  b", "{}", "[x]", "a,b", "$1", "a\rb", `C:\tmp\`, "a  b"}
+
+// interactingLiterals: literals whose handling can disturb the handling of a LATER literal (a scanner that wrongly
+// honours escapes loses track of the in/out-of-string state after a literal ending in a backslash; a printer that uses
+// a literal as a format string; line breaks inside nested, multi-line children).
+var interactingLiterals = []string{`x\`, "a\nb", "a  b", "p(q", "m;n", "100%", `\`}
 
 // SpecialLiteralFamily: sources that carry the special literals as string
 // constants and inside string lists.
@@ -454,6 +460,14 @@ func SpecialLiteralFamily() []*Src {
 			N("and", N("ne", L("i0"), L(q)), L("b0")),
 			N("in", L("i0"), L("("+q+` "x")`)),
 		)
+	}
+	for _, l1 := range interactingLiterals {
+		for _, l2 := range interactingLiterals {
+			q1, q2 := `"`+l1+`"`, `"`+l2+`"`
+			out = append(out, N("and", N("or", N("eq", L("i0"), L(q1)), L("b0")), N("or", N("ne", L("i0"), L(q2)), L("b1"))))
+			// both literals inside ONE nested child: its multi-line text is re-split by the enclosing level
+			out = append(out, N("or", N("and", N("eq", L("i0"), L(q1)), N("ne", L("i0"), L(q2))), L("b0")))
+		}
 	}
 	return out
 }
